@@ -4,9 +4,10 @@ import CE.Canon
 /-
   Stream-level CBE round trip for the structural fragment of the event alphabet: containers,
   Booleans, null, padding, comments, integers of every width and sign (all three integer event
-  forms), identifiers (markers, references, records, record types) and UIDs — streams of any
-  length and nesting.  What is NOT in the fragment: floats, decimals, big numbers beyond 64 bits,
-  times, arrays (their per-event behaviour is tied by the CBE.ENC / CBE.DEC correspondence and
+  forms), identifiers (markers, references, records, record types), UIDs, strings and resource
+  identifiers of any length (short form and chunk-header form) — streams of any length and
+  nesting.  What is NOT in the fragment: floats, decimals, big numbers beyond 64 bits, times,
+  typed arrays and chunked arrays (their per-event behaviour is tied by the CBE.ENC / CBE.DEC correspondence and
   the round-trip oracle of `bin/check C01`).
 -/
 namespace CE.Cbe
@@ -20,6 +21,7 @@ def simple : Ev → Bool
   | .marker id | .refLocal id | .record id | .recordType id =>
     decide (0 < id.length ∧ id.length ≤ maxIdentifierLength)
   | .uid b => decide (b.length = 16)
+  | .stringlike t s => (t == .string || t == .rid) && decide (s.length < 2 ^ 61)
   | _ => false
 
 /-- what the decoder emits for the encoding of a fragment event -/
@@ -30,6 +32,10 @@ def renorm : Ev → List Ev
   | .posInt n => [renormPos n]
   | .negInt n => [renormNeg n]
   | .int i => if 0 ≤ i then [renormPos i.toNat] else [renormNeg (-i).toNat]
+  | .stringlike t s =>
+    if t = .string ∧ s.length ≤ maxSmallArrayLength then [.array .string s.length s]
+    else if s.length = 0 then [.arrayBegin t, .arrayChunk 0 false]
+    else [.arrayBegin t, .arrayChunk s.length false, .arrayData s]
   | e => [e]
 
 theorem readId_encId (id rest : Bytes) (h0 : 0 < id.length) (h1 : id.length ≤ maxIdentifierLength) :
@@ -47,9 +53,52 @@ theorem readId_encId (id rest : Bytes) (h0 : 0 < id.length) (h1 : id.length ≤ 
 /-- the bytes the encoder writes for a fragment event (its state is not involved) -/
 theorem encodeEv_simple (st : EncSt) (e : Ev) (h : simple e = true) :
     ∃ bs, encodeEv st e = .ok (st, bs) := by
-  cases e <;> simp [simple] at h <;> first
+  cases e
+  case stringlike t s =>
+    simp only [simple, Bool.and_eq_true, Bool.or_eq_true, beq_iff_eq, decide_eq_true_eq] at h
+    simp only [encodeEv, bind, Except.bind, encArrayWhole]
+    cases hsm : smallHeader t s.length with
+    | some hd => exact ⟨_, rfl⟩
+    | none => rcases h.1 with rfl | rfl <;> exact ⟨_, rfl⟩
+  all_goals (simp [simple] at h <;> first
     | exact ⟨_, rfl⟩
-    | (rename_i o; cases o <;> simp [simple] at h; exact ⟨_, rfl⟩)
+    | (rename_i o; cases o <;> simp [simple] at h; exact ⟨_, rfl⟩))
+
+theorem decodeChunks_single8 (n : Nat) (hn : n < 2 ^ 61) (d rest : Bytes) (hd : d.length = n) (fuel : Nat) :
+    decodeChunks 8 (fuel + 1) (chunkHeader n false ++ (d ++ rest)) =
+      .ok (if n = 0 then [Ev.arrayChunk 0 false] else [Ev.arrayChunk n false, Ev.arrayData d], rest) := by
+  unfold decodeChunks chunkHeader
+  have h2 : n * 2 % 2 ^ 64 = n * 2 := Nat.mod_eq_of_lt (by omega)
+  simp only [Bool.false_eq_true, if_false, Nat.or_zero, h2]
+  have hu : readUleb (2 ^ 64 - 1) (uleb (n * 2) ++ (d ++ rest)) = .ok (n * 2, d ++ rest) := by
+    unfold readUleb
+    rw [unuleb_uleb (n * 2) (by omega)]
+    have : ¬ n * 2 > 2 ^ 64 - 1 := by omega
+    simp [this]
+  simp only [hu]
+  have hc : n * 2 / 2 = n := by omega
+  have hm : (n * 2 % 2 == 1) = false := by simp
+  have hmax : ¬ n > maxInt := by simp [maxInt]; omega
+  have hb : elemsToBytes 8 n % 2 ^ 64 = n := by
+    unfold elemsToBytes
+    have : n * 8 % 2 ^ 64 = n * 8 := Nat.mod_eq_of_lt (by omega)
+    simp [this]
+    omega
+  simp only [hc, hm, hmax, if_false, hb]
+  by_cases h0 : n = 0
+  · subst h0
+    have : d = [] := List.eq_nil_of_length_eq_zero hd
+    subst this
+    simp
+  · simp only [h0, if_false]
+    have := takeN_append d rest
+    rw [hd] at this
+    simp [this]
+
+
+/-- the short-string type byte: 0x80 | n = 0x80 + n for n ≤ 15, and it classifies as a short string -/
+theorem short_code : ∀ n : Fin 16, (u8 (0x80 ||| n.val)).toNat = 0x80 + n.val ∧ classify (0x80 + n.val) = .shortStr n.val := by
+  decide +kernel
 
 theorem decodeOne_byte (c : Nat) (tok : Tok) (hc : classify (u8 c).toNat = tok) (rest : Bytes) :
     decodeOne (u8 c :: rest) = decodeTok tok rest := by
@@ -181,13 +230,97 @@ theorem decodeOne_simple (st : EncSt) (e : Ev) (h : simple e = true) (bs rest : 
     simp only [hs, hm, hne, if_true, if_false]
     rw [lift_bind_ok _ _ (fun p : Bytes × Bytes => ([Ev.recordType p.1], p.2)) (readId_encId id rest h.1 h.2)]
     rfl
+  case stringlike t s =>
+    simp only [simple, Bool.and_eq_true, Bool.or_eq_true, beq_iff_eq, decide_eq_true_eq] at h
+    obtain ⟨ht, hlen⟩ := h
+    simp only [encodeEv, bind, Except.bind, encArrayWhole] at henc
+    by_cases hshort : t = .string ∧ s.length ≤ maxSmallArrayLength
+    · obtain ⟨rfl, hle⟩ := hshort
+      have hle' : s.length ≤ 15 := by simpa [maxSmallArrayLength] using hle
+      have hsm : smallHeader .string s.length = some [u8 (0x80 ||| s.length)] := by
+        simp [smallHeader, shortCode, maxSmallArrayLength]; omega
+      simp only [hsm] at henc
+      simp at henc; subst henc
+      obtain ⟨hc1, hc2⟩ := short_code ⟨s.length, by omega⟩
+      refine ⟨by simp, ?_⟩
+      simp only [renorm, hle, and_self, if_true, List.cons_append, List.nil_append, decodeOne, hc1, hc2, decodeTok]
+      rw [lift_bind_ok _ _ (fun p : Bytes × Bytes => ([Ev.array .string s.length p.1], p.2)) (takeN_append s rest)]
+    · have hsm : smallHeader t s.length = none := by
+        rcases ht with rfl | rfl
+        · simp only [true_and] at hshort
+          simp [smallHeader]; omega
+        · simp [smallHeader, shortCode]
+      simp only [hsm] at henc
+      rcases ht with rfl | rfl
+      · simp [arrayHeader, arrayCode, pure, Except.pure] at henc; subst henc
+        refine ⟨by simp, ?_⟩
+        simp only [renorm, hshort, if_false]
+        rw [List.cons_append, List.append_assoc, decodeOne_byte _ .str (by decide)]
+        simp only [decodeTok, decodeArray, ArrT.elemBits]
+        rw [decodeChunks_single8 s.length hlen s rest rfl]
+        have hgt : maxSmallArrayLength < s.length := by simp only [true_and] at hshort; omega
+        have hne : ¬ s.length = 0 := by omega
+        simp [hne] <;> omega
+      · simp [arrayHeader, arrayCode, pure, Except.pure] at henc; subst henc
+        refine ⟨by simp, ?_⟩
+        have hs2 : ¬ (ArrT.rid = ArrT.string ∧ s.length ≤ maxSmallArrayLength) := by simp
+        simp only [renorm, hs2, if_false]
+        rw [List.cons_append, List.append_assoc, decodeOne_byte _ .rid (by decide)]
+        simp only [decodeTok, decodeArray, ArrT.elemBits]
+        rw [decodeChunks_single8 s.length hlen s rest rfl]
+        by_cases h0 : s.length = 0 <;> simp [h0]
   all_goals simp [simple] at h
 
 
+/-- the next event is not a stray array chunk or data event -/
+def clean : List Ev → Bool
+  | .arrayChunk _ _ :: _ => false
+  | .arrayData _ :: _ => false
+  | _ => true
+
+theorem gather_clean (xs : List Ev) (cs : List Nat) (d : Bytes) (h : clean xs = true) :
+    gather xs cs d = (cs, d, xs) := by
+  cases xs with
+  | nil => simp [gather]
+  | cons x xs' => cases x <;> simp [clean] at h <;> simp [gather]
+
+theorem canon_arrayBegin1 (t : ArrT) (s : Bytes) (xs : List Ev) (hcl : clean xs = true) (htb : t ≠ .bit) :
+    canon false (Ev.arrayBegin t :: Ev.arrayChunk s.length false :: Ev.arrayData s :: xs) = CEv.arr t s :: canon false xs := by
+  rw [canon]
+  have hg : gather (Ev.arrayChunk s.length false :: Ev.arrayData s :: xs) [] [] = ([s.length], s, xs) := by
+    simp [gather, gather_clean xs _ _ hcl]
+  rw [hg]
+  cases t <;> simp_all [canonArr]
+
+theorem canon_arrayBegin0 (t : ArrT) (xs : List Ev) (hcl : clean xs = true) (htb : t ≠ .bit) :
+    canon false (Ev.arrayBegin t :: Ev.arrayChunk 0 false :: xs) = CEv.arr t [] :: canon false xs := by
+  rw [canon]
+  have hg : gather (Ev.arrayChunk 0 false :: xs) [] [] = ([0], [], xs) := by
+    simp [gather, gather_clean xs _ _ hcl]
+  rw [hg]
+  cases t <;> simp_all [canonArr]
+
 /-- the decoder's normal form of a fragment event carries the same data as the event -/
-theorem canon_renorm (e : Ev) (h : simple e = true) (xs ys : List Ev)
+theorem canon_renorm (e : Ev) (h : simple e = true) (xs ys : List Ev) (hcl : clean xs = true)
     (hxy : canon false xs = canon false ys) : canon false (renorm e ++ xs) = canon false (e :: ys) := by
   cases e
+  case stringlike t s =>
+    simp only [simple, Bool.and_eq_true, Bool.or_eq_true, beq_iff_eq, decide_eq_true_eq] at h
+    simp only [renorm]
+    by_cases hshort : t = .string ∧ s.length ≤ maxSmallArrayLength
+    · obtain ⟨rfl, _⟩ := hshort
+      simp [canon, canonArr, hxy, *]
+    · simp only [hshort, if_false]
+      have htb : t ≠ .bit := by rcases h.1 with rfl | rfl <;> simp
+      by_cases h0 : s.length = 0
+      · have hs : s = [] := List.eq_nil_of_length_eq_zero h0
+        subst hs
+        simp only [List.length_nil, if_true, List.cons_append, List.nil_append]
+        rw [canon_arrayBegin0 t xs hcl htb, hxy]
+        simp [canon]
+      · simp only [h0, if_false, List.cons_append, List.nil_append]
+        rw [canon_arrayBegin1 t s xs hcl htb, hxy]
+        simp [canon]
   case posInt n =>
     simp only [renorm, renormPos]
     split <;> simp [canon, hxy]
@@ -215,6 +348,35 @@ theorem canon_renorm (e : Ev) (h : simple e = true) (xs ys : List Ev)
   all_goals first
     | (simp [simple] at h; done)
     | simp [renorm, canon, hxy]
+
+theorem clean_renorm : ∀ (l : List Ev), l.all simple = true → clean (l.flatMap renorm ++ [Ev.endDoc]) = true
+  | [], _ => rfl
+  | e :: es, h => by
+    simp only [List.all_cons, Bool.and_eq_true] at h
+    have ih := clean_renorm es h.2
+    simp only [List.flatMap_cons, List.append_assoc]
+    cases e
+    case negInt n => simp only [renorm, renormNeg]; repeat' split
+                     all_goals rfl
+    case int i =>
+      simp only [renorm]
+      split
+      · unfold renormPos; split <;> rfl
+      · unfold renormNeg; repeat' split
+        all_goals rfl
+    case bigInt o =>
+      cases o with
+      | none => rfl
+      | some i => simp [simple] at h
+    case stringlike t s =>
+      simp only [renorm]; repeat' split
+      all_goals rfl
+    case posInt n => simp only [renorm, renormPos]; split <;> rfl
+    case bool b => cases b <;> rfl
+    case comment m s => simpa [renorm] using ih
+    all_goals first
+      | rfl
+      | (simp [simple] at h; done)
 
 /-- the whole fragment, any length and nesting: what the encoder writes for the stream is read
     back, event by event, as the stream's normal form, followed by the end of the document -/
@@ -299,7 +461,7 @@ theorem document_roundtrip (evs : List Ev) (h : evs.all simple = true) :
         intro hall
         simp only [List.all_cons, Bool.and_eq_true] at hall
         simp only [List.flatMap_cons, List.append_assoc, List.cons_append]
-        exact canon_renorm e hall.1 _ _ (ih hall.2)
+        exact canon_renorm e hall.1 _ _ (clean_renorm es hall.2) (ih hall.2)
     simp [canon, doc, hbody evs h]
 
 end CE.Cbe
